@@ -10,6 +10,7 @@ import CookModel.Lemmas.ExtLawsValue
 import CookModel.Lemmas.C02Lift
 import CookModel.Lemmas.C02LiftMeta
 import CookModel.Lemmas.LexLaws
+import CookModel.Lemmas.TableFacts
 /-
   C02  Core-syntax recipes parse identically under every extension subset.
 
@@ -1066,5 +1067,68 @@ example : AgreeOn (otherFlagsAll [Gen.EXT_COMPONENT_ALIAS]) ⟨Gen.EXT_COMPONENT
     AgreeOn (otherFlagsAll [Gen.EXT_COMPONENT_MODIFIERS, Gen.EXT_INTERMEDIATE_PREPARATIONS])
       ⟨Gen.EXT_COMPONENT_MODIFIERS ||| Gen.EXT_INTERMEDIATE_PREPARATIONS⟩ ⟨0⟩ := by
   refine ⟨?_, ?_, ?_, ?_, ?_⟩ <;> (intro g hg; revert g; decide)
+
+/-! ### the character table of the real lexer: the blank is `char::is_whitespace` in the generated table
+    (`tbl_uws_sp`, `Lemmas/TableFacts.lean`), so the side condition `uws ' ' = true` / `KeyTestsAgree` is discharged -/
+
+example : ({ C02.env with cs := realCharSpec } : Env).cs = realCharSpec := rfl
+
+/-- `C02_usesNone_events` at the character table generated from the real lexer:
+    the side condition `KeyTestsAgree` is proved for that table (`Lemmas/TableFacts.lean`), not assumed -/
+theorem C02_usesNone_events_real (e : Ext) (input : List Char) (h : UsesNoneInput realCharSpec input = true) :
+    ∀ ev ∈ (pullEvents (α := α) realCharSpec e input).1.toList,
+      (∀ k v, ev = .metadata k v → bracketedKey realCharSpec k = false) ∧
+      (∀ i, ev = .ingredient i → i.val.modifiers.val = Modifiers.empty ∧ i.val.inter = none) :=
+  C02_usesNone_events (cs := realCharSpec) (hkey := (C02_key_tests_agree realCharSpec tbl_uws_sp)) e input h
+
+/-- `C02_key_tests_agree` at the character table generated from the real lexer:
+    the side condition `uws ' ' = true` is proved for that table (`Lemmas/TableFacts.lean`), not assumed -/
+theorem C02_key_tests_agree_real :
+    KeyTestsAgree realCharSpec :=
+  C02_key_tests_agree (cs := realCharSpec) (h := tbl_uws_sp)
+
+/-- `C02_parse_ext_irrelevant` at the character table generated from the real lexer (any environment whose
+    table is that one, as the driver's `realEnv`):
+    the side condition `uws ' ' = true` is proved for that table (`Lemmas/TableFacts.lean`), not assumed -/
+theorem C02_parse_ext_irrelevant_real (env : Env) (hreal : env.cs = realCharSpec) (e : Ext) (input : Str)
+    (hu : UsesNoneInput env.cs input = true)
+    (hconv : (pullEvents (α := α) env.cs env.ext input).1.toList.all (evConvCore α env) = true) :
+    parseRecipe (α := α) (env.withExt e) input = parseRecipe env input :=
+  C02_parse_ext_irrelevant env (hws := hreal ▸ tbl_uws_sp) e input hu hconv
+
+/-- `C02_parse_ext_irrelevant_two` at the character table generated from the real lexer (any environment whose
+    table is that one, as the driver's `realEnv`):
+    the side condition `uws ' ' = true` is proved for that table (`Lemmas/TableFacts.lean`), not assumed -/
+theorem C02_parse_ext_irrelevant_two_real (env : Env) (hreal : env.cs = realCharSpec) (e₁ e₂ : Ext) (input : Str)
+    (hu : UsesNoneInput env.cs input = true)
+    (hconv : (pullEvents (α := α) env.cs env.ext input).1.toList.all (evConvCore α env) = true) :
+    parseRecipe (α := α) (env.withExt e₁) input = parseRecipe (env.withExt e₂) input :=
+  C02_parse_ext_irrelevant_two env (hws := hreal ▸ tbl_uws_sp) e₁ e₂ input hu hconv
+
+/-- `C02_metaKeyCore_events` at the character table generated from the real lexer:
+    the side condition `uws ' ' = true` is proved for that table (`Lemmas/TableFacts.lean`), not assumed -/
+theorem C02_metaKeyCore_events_real (e : Ext) (input : List Char)
+    (h : AllBlocksOf realCharSpec input (metaKeyCore realCharSpec) = true) :
+    (pullEvents (α := α) realCharSpec e input).1.toList.all (evNoBracket realCharSpec) = true :=
+  C02_metaKeyCore_events (cs := realCharSpec) (hws := tbl_uws_sp) e input h
+
+/-- `C02_modes_local_parse_tokens` at the character table generated from the real lexer (any environment whose
+    table is that one, as the driver's `realEnv`):
+    the side condition `uws ' ' = true` is proved for that table (`Lemmas/TableFacts.lean`), not assumed -/
+theorem C02_modes_local_parse_tokens_real (env : Env) (hreal : env.cs = realCharSpec) (e : Ext) (input : Str)
+    (ha : AgreeOn (otherFlagsAll [Gen.EXT_MODES]) e env.ext)
+    (h : AllBlocksOf env.cs input (metaKeyCore env.cs) = true) :
+    parseRecipe (α := α) (env.withExt e) input = parseRecipe env input :=
+  C02_modes_local_parse_tokens env (hws := hreal ▸ tbl_uws_sp) e input ha h
+
+/-- `C02_advanced_local_parse_default_modes` at the character table generated from the real lexer (any environment whose
+    table is that one, as the driver's `realEnv`):
+    the side condition `uws ' ' = true` is proved for that table (`Lemmas/TableFacts.lean`), not assumed -/
+theorem C02_advanced_local_parse_default_modes_real (env : Env) (hreal : env.cs = realCharSpec) (e : Ext)
+    (input : Str) (ha : AgreeOn (otherFlagsAll [Gen.EXT_ADVANCED_UNITS]) e env.ext)
+    (h : AllBlocksOf env.cs input advCore = true) (hm : AllBlocksOf env.cs input (metaKeyCore env.cs) = true)
+    (hev : (pullEvents (α := α) env.cs env.ext input).1.toList.all (advEvCore env true) = true) :
+    parseRecipe (α := α) (env.withExt e) input = parseRecipe env input :=
+  C02_advanced_local_parse_default_modes env (hws := hreal ▸ tbl_uws_sp) e input ha h hm hev
 
 end Cook
